@@ -105,7 +105,8 @@ class C17(Campaign):
                    "the model holds its machine and the MODEL is copied (model.sm <-> sm.model cycle)",
                    "listener classes with value-based __eq__/__hash__ (a copy equals its original)",
                    "snapshot-after-failed-op", "snapshot after a failed (deferred) initial activation", "diverging suffixes, interleaved",
-                   "allow_event_without_transition reassigned on a live machine (before / after the snapshot)"]
+                   "allow_event_without_transition reassigned on a live machine (before / after the snapshot)",
+                   "a listener object shared by identity between the original and its copy"]
     rule = ("one run = a generated machine (all option combinations rtc x allow x state_field x start_value, "
             "custom attribute, model and listener callbacks, sync/async) driven through a prefix, copied with "
             "deepcopy or pickle at a seeded point, then original and clone driven through different, interleaved "
@@ -185,6 +186,13 @@ class C17(Campaign):
             at2 = rnd.randrange(1, len(out))
             who = "A" if at2 <= out.index(next(o for o in out if o["op"] == "clone")) else rnd.choice(["A", "B"])
             out.insert(at2, {"op": "setopt", "inst": who, "allow": rnd.random() < 0.5})
+        if rnd.random() < 0.25:
+            # one listener OBJECT (an audit log) shared by the original and, later, its copy: the copy got
+            # its own copy of it, and accepts the original's object like any listener it has not seen
+            new["shared_probe"] = True
+            cl = next(i for i, o in enumerate(out) if o["op"] == "clone")
+            out.insert(rnd.randrange(cl + 1, len(out)), {"op": "attach_probe", "inst": "B", "from": "A"})
+            out.append({"op": "send", "inst": "B", "event": rnd.choice(prog["events"])})
         if new.get("bind_model"):
             for o in out:
                 if o["op"] == "send" and o["event"] in prog["events"] and rnd.random() < 0.5:
@@ -247,6 +255,32 @@ class C17(Campaign):
                 if not i["extra_attr"]:
                     out["violations"].append({"clause": "C17.custom_attributes", "kind": "attr", "op": None, "detail": i})
                     return out
+        # ---- a listener object shared with the original is a listener of the copy too
+        if not f:
+            ap = next((i for i, o in enumerate(sc["ops"]) if o["op"] == "attach_probe"), None)
+            outs = {o["n"]: o for o in res["outs"]}
+            if ap is not None and outs.get(ap) and not outs[ap].get("skipped"):
+                heard = (outs[ap].get("obs") or {}).get("probe_heard", 0)
+                for i in range(ap + 1, len(sc["ops"])):
+                    op = sc["ops"][i]
+                    o = outs.get(i)
+                    if op.get("inst") != sc["ops"][ap]["inst"] or o is None or o.get("skipped"):
+                        continue
+                    now = (o.get("obs") or {}).get("probe_heard")
+                    exp = m.exp_by_op.get(i) or {}
+                    fired = sum(1 for ex in exp.get("execs", []) if ex.get("trans", -1) is not None
+                                and ex.get("trans", -1) >= 0)
+                    if now is None:
+                        continue
+                    if op["op"] == "send" and exp.get("exc") is None and fired and now <= heard:
+                        out["violations"].append({
+                            "clause": "C17.independence", "kind": "shared_listener_object_ignored_by_copy", "op": i,
+                            "detail": {"on": op.get("inst"), "transitions_executed": fired,
+                                       "heard_before": heard, "heard_after": now,
+                                       "how": sc["ops"][next(k_ for k_, o_ in enumerate(sc["ops"])
+                                                             if o_["op"] == "clone")]["how"]}})
+                        return out
+                    heard = now
         clone_at = next(i for i, o in enumerate(sc["ops"]) if o["op"] == "clone")
         gen2 = any(o["op"] == "clone" and o["inst"] != "A" for o in sc["ops"])
         for x in f:
